@@ -46,6 +46,13 @@ QuickC == BootS(2, 3, {<<TRUE, TRUE>>, <<FALSE, TRUE>>}, {"grp"}, {"cat"})
           \cup CrossvalS("kfoldpat", 1, 2, 3, 9, 1, {"index"}, {"index", "cat"})
           \cup DualRandS(1, 2, 1, 3, 2, 0, 0, {<<TRUE, TRUE>>}, {"index"}, {"index"})
 
+\* NR = 5, NC = 4, trimmed draws: MORE RDM groups than condition groups (5 > 4; 'grp': 3 < 4; 'cat': 2), so that
+\* the smaller factor in DofRule is the condition axis; every routine that resamples both axes
+QuickD == BootS(2, 3, {<<TRUE, TRUE>>}, {"subj", "grp"}, {"cond", "cat"})
+          \cup BootCvS(1, 2, 2, 1, 3, 0, 9, {<<TRUE, TRUE>>}, {"subj", "grp"}, {"cond"})
+          \cup DualS(1, 1, 2, 1, 2, 0, 9, {"subj", "grp"}, {"cond"})
+          \cup DualRandS(1, 2, 1, 0, 3, 0, 9, {<<TRUE, TRUE>>}, {"subj", "grp"}, {"cond"})
+
 (* ---- thorough tier ---- *)
 \* NR = 3, NC = 4, every draw outcome (27 x 256) of the first sample, second sample identity / all-first
 ThorA == BootS(2, 3, {<<TRUE, TRUE>>}, {"subj"}, {"cond"})
